@@ -264,6 +264,44 @@ def gen_case(rng, kind, big=False, allow_known=False):
             ops += damage_ops(rng, u, ranges, allow_known=(kind == "known"))
             ops.append("O %d" % cap)
             rand_put_get(rng, u, ops, nops // 2 + 1)
+    elif kind == "plantkeys":
+        # key-like directories planted next to the real ones, every shape in one case: names that decode to fewer than 32 bytes
+        # under their own prefix directory, under a foreign one, with invalid UTF-8 behind the hash, in another letter case
+        cap = 100000
+        ops.append("O %d" % cap)
+        ranges = rand_put_get(rng, u, ops, 4, bad=False)
+        ops.append("C")
+        k = rng.randrange(len(u.keys))
+        for nk in ["b3", "b31", "b32", "b33bad", "b40", "b40bad"]:
+            ops.append("DP 2 k%d %s d -" % (k, planted_key_name(rng, u.keys[k][0], nk).hex()))
+        for parent, nm in [(b"zz", b"zzzz"), (b"zz", b"zz"), (b"Zz", b"zzzz"), (b"ab", b"abcd"), (b"zz", b"zzzzzzzz")]:
+            ops.append("DP 2 %s %s d -" % (parent.hex(), nm.hex()))
+        ops.append("O %d" % cap)
+        for (kk, a, b) in ranges:
+            ops.append("G %d %d %d" % (kk, a, b))
+        rand_put_get(rng, u, ops, 3, bad=False)
+    elif kind == "dmgcap":
+        # every cache file damaged while the cache is closed, then a re-open with a capacity so small that the scan stops early
+        # and leaves damaged files untracked: a get misses (or drops the damaged entry), the range is put again, and the next get
+        # must return what was put -- never what the damaged file holds
+        cap = 100000
+        ops.append("O %d" % cap)
+        ranges = []
+        for _ in range(rng.choice([6, 8, 12])):
+            kk = rng.randrange(len(u.keys))
+            a, b = u.rand_range(rng, kk, 2)
+            if (kk, a, b) not in ranges:
+                ranges.append((kk, a, b))
+                ops.append("P %d %d %d" % (kk, a, b))
+        ops.append("C")
+        for kk in range(len(u.keys)):
+            for n in range(8):
+                # (in the chunk data at the end of the file: a damaged header makes the read fail instead of delivering bytes)
+                ops.append("DF %d %d e%d %d" % (kk, n, rng.randrange(8, 33), 1 | (rng.getrandbits(7) << 1)))
+        small = max(u.item_len(kk, a, b) for (kk, a, b) in ranges) + rng.choice([0, 3])
+        ops.append("O %d" % rng.choice([small, small, 2 * small]))
+        for (kk, a, b) in ranges:
+            ops += ["G %d %d %d" % (kk, a, b), "P %d %d %d" % (kk, a, b), "G %d %d %d" % (kk, a, b)]
     elif kind == "openwhile":
         cap = 100000
         ops.append("O %d" % cap)
@@ -382,7 +420,7 @@ def race_cases(rng, big):
     return cases
 
 
-def streams(rng, tier, kinds, per_kind=None, allow_known=False):
+def streams(rng, tier, kinds, per_kind=None, allow_known=False, per_kind_override=None):
     big = tier == "thorough"
     cases = []
     for kind in kinds:
@@ -390,6 +428,8 @@ def streams(rng, tier, kinds, per_kind=None, allow_known=False):
             cases += race_cases(rng, big)
             continue
         n = per_kind if per_kind is not None else (24 if not big else 150)
+        if per_kind_override and kind in per_kind_override:
+            n = per_kind_override[kind] * (1 if not big else 5)
         for i in range(n):
             cases.append({"id": "%s%d" % (kind, i), "text": gen_case(rng, kind, big, allow_known), "meta": {"kind": kind}})
     return [{"name": "cache", "cases": cases, "prep": "cache", "prep_impl": True, "timeout": 1200}]
